@@ -846,10 +846,7 @@ func checkQRShiftStrategy(c *core.Ctx) {
 				for _, a := range ce.Args {
 					ast.Inspect(a, func(k ast.Node) bool {
 						if id, isId := k.(*ast.Ident); isId && counters[info.Uses[id]] {
-							// the counter must not be the loop's own induction variable
-							if fs.Post == nil {
-								ok = true
-							}
+							ok = true // counters are collected from the body only: the loop's own step counter does not count
 						}
 						return true
 					})
